@@ -109,7 +109,9 @@ func (fs LocalFileSystem) Stat(ctx context.Context, name string) (*FileInfo, err
 	if err != nil {
 		return nil, errFromOS(err)
 	}
-	return fileInfoFromOS(name, fi), nil
+	// Report the resource under its canonical path, like ReadDir does: an
+	// unclean name such as "//foo" isn't a path when used as a href
+	return fileInfoFromOS(path.Clean(name), fi), nil
 }
 
 func (fs LocalFileSystem) ReadDir(ctx context.Context, name string, recursive bool) ([]FileInfo, error) {
